@@ -880,5 +880,9 @@ PROPS["C16"]["explanation"] += " (ALIASFREE) a local that names the block the fa
 PROPS["C14"]["rules"] = PROPS["C14"]["rules"] + [rules_access.rule_creator_checks_access]
 PROPS["C14"]["explanation"] += " (CREATEACC) a routine that allocates a reference and registers an id for a new object tests write permission first."
 
+for _p in ("C01", "C16"):
+    PROPS[_p]["rules"] = PROPS[_p]["rules"] + [rules_errors.rule_failed_transfer_forgets_position]
+    PROPS[_p]["explanation"] += " (POSUNKNOWN) every failing exit after a stdio transfer has reassigned the cached last_op."
+
 NOT_APPLICABLE = {}
 
